@@ -49,7 +49,11 @@
        (or_default is or_insert_with(Default::default) in the crate and the model.)
        C11_or_insert_keeps_key         on an occupied entry the stored pair (hence the
                                        stored key object) is exactly what it was
-       panic clauses: only "map full and key absent" panics, container unchanged.
+       panic clauses: only "map full and key absent" panics; the container is
+                                       unchanged and the rejected key and value (for
+                                       or_insert_with*: the value the closure just made,
+                                       after its one EvCall 2) are destroyed exactly once
+                                       by unwinding: logged w w' (ev_drops (idK E k ++ idV E v)).
    * "and_modify runs its closure only when occupied":
        C11_and_modify_lawful  present -> exactly one EvCall 3, value of that slot
                               becomes g v0, key kept, all other entries untouched;
@@ -76,7 +80,8 @@
                               vacant; container unchanged
    * "VacantEntry insert":
        C11_vac_insert_lawful  appends (k,v) at index len, returns that slot; panics
-                              (container and log unchanged) iff the map is full.
+                              iff the map is full: container unchanged, the rejected
+                              k and v destroyed once by unwinding (EvDrop events).
 
    PARTLY / NOT COVERED BY A THEOREM (left to the correspondence check)
    * OccupiedEntry::get / get_mut / key / into_mut: CLOSED by C11_occ_get_lawful
@@ -180,7 +185,9 @@ Theorem C11_vac_insert_lawful :
           WF (self w') /\ cap (self w') = cap (self w) /\ log w' = log w /\
           Spec.elems (self w') = Spec.elems (self w) ++ [(k, v)] /\
           i = length (Spec.elems (self w)) /\ len (self w) < cap (self w))
-       (fun w' : world K V T => stable w w' /\ len (self w) = cap (self w)) w.
+       (fun w' : world K V T =>
+          self w' = self w /\ logged w w' (ev_drops (idK E k ++ idV E v)) /\
+          len (self w) = cap (self w)) w.
 Proof. exact (fun K V Q T E debug ck cq HL => vac_insert_lawful E debug ck cq HL). Qed.
 Print Assumptions C11_vac_insert_lawful.
 
@@ -198,8 +205,9 @@ Theorem C11_or_insert_lawful :
                     Spec.elems (self w') = Spec.elems (self w) ++ [(k, v)] /\ log w' = log w
           end)
        (fun w' : world K V T =>
-          self w' = self w /\ find_idx ck (ck k) (Spec.elems (self w)) = None /\
-          len (self w) = cap (self w)) w.
+          self w' = self w /\
+          logged w w' (ev_drops (idK E k ++ idV E v)) /\
+          find_idx ck (ck k) (Spec.elems (self w)) = None /\ len (self w) = cap (self w)) w.
 Proof. exact (fun K V Q T E debug ck cq HL => or_insert_lawful E debug ck cq HL). Qed.
 Print Assumptions C11_or_insert_lawful.
 
@@ -218,8 +226,11 @@ Theorem C11_or_insert_with_lawful :
                     logged w w' [EvCall 2]
           end)
        (fun w' : world K V T =>
-          self w' = self w /\ find_idx ck (ck k) (Spec.elems (self w)) = None /\
-          len (self w) = cap (self w)) w.
+          self w' = self w /\
+          (exists (v : V) (s s' : T),
+              f s = (Some v, s') /\
+              logged w w' ([EvCall 2] ++ ev_drops (idK E k ++ idV E v))) /\
+          find_idx ck (ck k) (Spec.elems (self w)) = None /\ len (self w) = cap (self w)) w.
 Proof. exact (fun K V Q T E debug ck cq HL => or_insert_with_lawful E debug ck cq HL). Qed.
 Print Assumptions C11_or_insert_with_lawful.
 
@@ -238,8 +249,11 @@ Theorem C11_or_insert_with_key_lawful :
                     logged w w' [EvCall 2]
           end)
        (fun w' : world K V T =>
-          self w' = self w /\ find_idx ck (ck k) (Spec.elems (self w)) = None /\
-          len (self w) = cap (self w)) w.
+          self w' = self w /\
+          (exists (v : V) (s s' : T),
+              f k s = (Some v, s') /\
+              logged w w' ([EvCall 2] ++ ev_drops (idK E k ++ idV E v))) /\
+          find_idx ck (ck k) (Spec.elems (self w)) = None /\ len (self w) = cap (self w)) w.
 Proof. exact (fun K V Q T E debug ck cq HL => or_insert_with_key_lawful E debug ck cq HL). Qed.
 Print Assumptions C11_or_insert_with_key_lawful.
 
@@ -412,9 +426,10 @@ Example C11_example_runs :
   | Ok i w' => i = 3 /\ Spec.elems (self w') = Spec.elems m ++ [(k_ 90 9, v_ 91 0)] /\ log w' = []
   | _ => False
   end /\
-  (* full map, absent key: panics, container unchanged *)
+  (* full map, absent key: panics, container unchanged, the rejected key (id 90)
+     and value (id 91) destroyed once by unwinding *)
   match (e <- entry_of E (k_ 90 9) ;; or_insert E true e (v_ 91 0)) (w_of m3) with
-  | Panic w' => self w' = m3
+  | Panic w' => self w' = m3 /\ log w' = [EvDrop 90; EvDrop 91]
   | _ => False
   end.
 Proof. vm_compute. repeat split; reflexivity. Qed.
